@@ -82,10 +82,10 @@ def multiname_contract(run, twin=None):
             assume(z3.And(z3.Int('dl%d' % i) >= 1, z3.Int('dc%d' % i) >= 0))
             for j in range(i):
                 assume(z3.Or(z3.Int('dl%d' % i) != z3.Int('dl%d' % j), z3.Int('dc%d' % i) != z3.Int('dc%d' % j)))
-        inner = Nm.MultiName.__new__(Nm.MultiName)
+        inner = loader.bare_instance(Nm.MultiName)
         inner.alt_names = [names[1], undef]
         inner.name = 'v'
-        m = Nm.MultiName.__new__(Nm.MultiName)
+        m = loader.bare_instance(Nm.MultiName)
         # the row arrives in an arbitrary order (parent_names builds it through a set)
         row = PermSet([names[0], inner, names[2]]).permuted() + [names[1]]
         f(m, row)
